@@ -6,10 +6,10 @@
 
    One theorem per `assume_ordering_trusted` / `assume_retries_trusted` call site whose
    justification is proved (the list of call sites is regenerated from the source on every run and
-   compared with tools/hydro.py TRUSTED_TABLE).  Not proved here: repeat_with_keys,
-   KeyedSingleton::into_singleton (2 sites) and get_max_key, whose justification rests on the
-   upstream invariant "keys of a keyed singleton are distinct" -- hence the suffix _partial on
-   the summary. Duplication model: see Hydro/PTrusted.v. *)
+   compared with tools/hydro.py TRUSTED_TABLE).  The four sites that rest on the keyed-singleton
+   invariant "entries have pairwise distinct keys" (repeat_with_keys, into_singleton x2,
+   get_max_key) are proved under that invariant, and the invariant is proved for the producers
+   (the states of the emitted keyed fold / keyed reduce).  Duplication model: see PTrusted.v. *)
 From HV Require Import Hydro.Model Hydro.ModelTick Hydro.ModelFlows Hydro.PBase Hydro.PTick Hydro.PTrusted.
 
 (* Stream::max / min (retries + ordering_bounded sites): only the set of elements matters *)
@@ -27,8 +27,10 @@ Print Assumptions C32_min.
 Theorem C32_extremum_any_ord : forall gt : val -> val -> bool,
   (forall a, gt a a = false) ->
   (forall a b c, gt a b = true -> gt b c = true -> gt a c = true) ->
-  (forall a b, a = b \/ gt a b = true \/ gt b a = true) ->
-  forall l l', (forall x, In x l <-> In x l') -> reduce_list (pick gt) l = reduce_list (pick gt) l'.
+  forall D : val -> Prop,
+  (forall a b, D a -> D b -> a = b \/ gt a b = true \/ gt b a = true) ->
+  forall l l', (forall x, In x l -> D x) ->
+  (forall x, In x l <-> In x l') -> reduce_list (pick gt) l = reduce_list (pick gt) l'.
 Proof. exact extremum_set_invariant. Qed.
 Print Assumptions C32_extremum_any_ord.
 
@@ -62,6 +64,40 @@ Print Assumptions C32_value_counts.
 Theorem C32_weaken : forall a b, equiv true a b -> equiv false a b.
 Proof. exact weaken_sound. Qed.
 Print Assumptions C32_weaken.
+
+(* the keyed-singleton invariant holds for what fold_keyed / reduce_keyed emit *)
+Theorem C32_keyed_singleton_invariant_fold : forall init acc l,
+  keys_distinct (kentries (kfold_list init acc l)).
+Proof. exact kfold_keys_distinct. Qed.
+Print Assumptions C32_keyed_singleton_invariant_fold.
+
+Theorem C32_keyed_singleton_invariant_reduce : forall f l, keys_distinct (kentries (kreduce_list f l)).
+Proof. exact kreduce_keys_distinct. Qed.
+Print Assumptions C32_keyed_singleton_invariant_reduce.
+
+(* KeyedSingleton::into_singleton / into_singleton_inside_tick (ordering sites) *)
+Theorem C32_into_singleton : forall es es',
+  keys_distinct es -> Permutation es es' -> map_eq (into_map es) (into_map es').
+Proof. exact into_singleton_order_independent. Qed.
+Print Assumptions C32_into_singleton.
+
+(* KeyedSingleton::get_max_key (ordering site) *)
+Theorem C32_get_max_key : forall es es',
+  keys_distinct es -> Permutation es es' -> reduce_list c_maxkey es = reduce_list c_maxkey es'.
+Proof. exact get_max_key_order_independent. Qed.
+Print Assumptions C32_get_max_key.
+
+(* Stream::repeat_with_keys (ordering site on the keys) *)
+Theorem C32_repeat_with_keys : forall ks ks' items,
+  NoDup ks -> Permutation ks ks' -> forall k, proj k (nested ks items) = proj k (nested ks' items).
+Proof. exact repeat_with_keys_order_independent. Qed.
+Print Assumptions C32_repeat_with_keys.
+
+(* without the invariant the into_singleton closure is NOT order independent *)
+Example C32_into_singleton_needs_distinct_keys :
+  klookup (VN 1) (into_map [VP (VN 1) (VN 5); VP (VN 1) (VN 6)]) <>
+  klookup (VN 1) (into_map [VP (VN 1) (VN 6); VP (VN 1) (VN 5)]).
+Proof. vm_compute. discriminate. Qed.
 
 (* `last` is NOT invariant under arbitrary re-delivery of an older element: the retries
    assumption of Stream::last is justified only for in-place (stuttering) duplicates *)
